@@ -6,9 +6,8 @@ Accepted outcome per candidate
   parse_error   ColangParsingError (nemoguardrails.colang.v2_x.runtime.errors - config.py raises this
                 type for *both* colang versions, see `_parse_colang_files_recursively`) whose message
                 contains the path of the offending file
-  import_error  ValueError("Import path `..` could not be resolved.") from `_load_imported_paths`:
-                the file parsed, a syntactically valid import names a module that does not exist.
-                Counted separately, not a violation (not a statement about the text being parseable).
+  (an unresolvable but syntactically valid import raises ValueError("Import path `..` could not be
+   resolved.") from `_load_imported_paths`: another exception type, hence reported - one signature)
 Everything else (other exception types, ColangParsingError without the file, no result in time) is a
 violation, classified by (version, exception type, innermost nemoguardrails frame function,
 type of the exception it was raised while handling).
@@ -123,7 +122,9 @@ def load(ver, text, mode="screen"):
     except Exception as e:  # noqa
         fn = inner_lib_function(e.__traceback__)
         if isinstance(e, ValueError) and fn == "_load_imported_paths" and "could not be resolved" in str(e):
-            return "import_error", None, None
+            # the statement allows exactly one exception type for *any* file content; an import of a
+            # missing module (e.g. a typo in `import core`) surfaces as a bare ValueError instead
+            return "violation", f"E:{ver}:ValueError@_load_imported_paths:unresolved-import", _one_line(e, 200)
         ctx = e.__cause__ or e.__context__
         sig = f"E:{ver}:{type(e).__name__}@{fn}"
         det = f"{type(e).__name__}: {_one_line(e, 200)}"
